@@ -898,7 +898,7 @@ truncation, in the shared bit-exact model of `Rare/Base/F64.lean`. -/
 def fracTerm (f unit k : Nat) : Nat :=
   (F64.toInt64 (F64.mul (F64.ofInt f) (F64.div (F64.ofInt unit) (F64.ofInt (10 ^ k : Nat))))).toNat
 
-/-- The loop of `ParseDuration` (magnitude in ns accumulated in `d`); `none` = error. -/
+/-- The loop of `ParseDuration` (magnitude in ns accumulated in the uint64 `d`); `none` = error. -/
 def parseDurLoop : Nat → Bytes → Nat → Option Nat
   | 0, _, _ => none
   | fuel + 1, s, d =>
@@ -926,7 +926,7 @@ def parseDurLoop : Nat → Bytes → Nat → Option Nat
                   let v' := if fk.1 > 0 then v * unit + fracTerm fk.1 unit fk.2 else v * unit
                   if v' > 9223372036854775808 then none
                   else
-                    let d' := d + v'
+                    let d' := (d + v') % 18446744073709551616 -- uint64: 2^63 + 2^63 wraps to 0 and passes the check below (Go's own quirk)
                     if d' > 9223372036854775808 then none else parseDurLoop fuel s3 d'
 
 /-- `time.ParseDuration`. -/
